@@ -266,7 +266,7 @@ V_HARNESS(h_loop)
   for (it = 0; it < LOOPS; it++) {
     uint32_t t = in_u32(); uint8_t ready = in_u8(); unsigned gone_now = 0; int touched[3];
     V_ASSUME((time_t) t >= C19.now); C19.now = (time_t) t;                  /* the clock does not run backwards */
-    FD_ZERO(&rd); FD_ZERO(&wr);
+    memset(&rd, 0, sizeof rd); memset(&wr, 0, sizeof wr);
     (void) vbi_proxyd_get_fd_set(&rd, &wr);                                 /* proxyd.c:2804 */
     for (i = 0; i < NCL; i++) {                                             /* select(): any subset is ready */
       touched[i] = 0;
@@ -352,6 +352,9 @@ V_HARNESS(h_timer)
 #ifndef DROP_IDLE
 #define DROP_IDLE 0
 #endif
+#ifndef FAILKIND
+#define FAILKIND 0
+#endif
 V_HARNESS(h_drop)
 {
   fd_set rd, wr; struct clnt_obs o0[3], o1[3]; struct env_obs e0, e1; unsigned i; PROXY_CLNT *a; int a_tok, a_fd;
@@ -372,13 +375,16 @@ V_HARNESS(h_drop)
   w_assume_inv();
   a = W_cl[ACT]; a_tok = a->chn_state.token_state; a_fd = a->io.sock_fd;
   if (DROP_IDLE) for (i = 0; i < NCL; i++) if (i != ACT) V_ASSUME(W_cl[i]->p_sliced == NULL);
-  /* the failure: first recv()/send() of the step fails for good */
-  V_ASSUME(C19.recv_ret[0] <= 0 && (C19.recv_ret[0] == 0 || C19.recv_err[0] >= 2));
-  V_ASSUME(C19.send_ret[0] < 0 && C19.send_err[0] >= 2);
+  /* the failure (case split FAILKIND, concrete so that the drop path is not merged with a surviving one):
+     0 peer closed (recv returns 0), 1 recv fails with ECONNRESET, 2 connection breaks while a reply is being sent (send fails with EPIPE) */
+  C19.recv_ret[0] = (FAILKIND == 0) ? 0 : -1; C19.recv_err[0] = 2;
+  C19.send_ret[0] = -1; C19.send_err[0] = 2;
   C19.stream_len = 0;
+  if (FAILKIND == 2) { a->io.writeLen = sizeof(VBIPROXY_MSG_HEADER) + 12; a->io.writeOff = (uint32_t) (in_u8() % 20); a->io.pWriteBuf = &a->msg_buf; }
+  else { a->io.writeLen = 0; a->io.pWriteBuf = NULL; in_u8(); }
   for (i = 0; i < NCL; i++) obs_clnt(&o0[i], W_cl[i]);
   obs_env(&e0);
-  FD_ZERO(&rd); FD_ZERO(&wr);
+  memset(&rd, 0, sizeof rd); memset(&wr, 0, sizeof wr);
   if (a->io.writeLen == 0) FD_SET(a_fd, &rd); else FD_SET(a_fd, &wr);     /* select(): only the failing connection is ready */
   vbi_proxyd_handle_client_sockets(&rd, &wr);
   obs_env(&e1);
